@@ -133,10 +133,15 @@ Definition write_many_rf (c : logcfg) (lens : list N) (d : dir) : dir :=
   else dappend (cur_name c) (total_bytes lens) (open_file c d0).
 
 (* the same call in a directory that holds an entry whose metadata() FAILS (dangling symbolic link,
-   link loop, entry deleted between read_dir and stat): get_log_files returns the error AFTER the
-   rename, archive_file()? and roll_if_needed()? pass it on: the current file has been archived,
-   nothing is trimmed, no new current file is created, nothing is appended *)
+   link loop, entry deleted between read_dir and stat), or a sub-directory: since /repo 9e49374
+   get_log_files skips every entry that is not a regular file it can stat, so such entries are inert
+   and the call is the ordinary one *)
 Definition write_many_lf (c : logcfg) (ts : bytes) (lens : list N) (d : dir) : dir :=
+  write_many c ts lens d.
+
+(* BEFORE 9e49374 (finding F-C19a, kept for the documented refutation): get_log_files returned the
+   error AFTER the rename: current file archived, nothing trimmed, no new current file, nothing appended *)
+Definition write_many_lf_before_fix (c : logcfg) (ts : bytes) (lens : list N) (d : dir) : dir :=
   let d0 := open_file c d in
   if lmax_size c <=? cur_size c d0 then drename (cur_name c) (arch_name c ts) d0
   else dappend (cur_name c) (total_bytes lens) (open_file c d0).
@@ -223,9 +228,14 @@ Definition ev_flush (cap : N) (ts : bytes) (s : evstate) : evstate :=
   else if cap <=? N.of_nat (length (evdir s)) then {| evdir := evdir s; evq := 0; evphase := evphase s |}
   else {| evdir := dput (ts ++ ev_ext) (evq s) 0 (evdir s); evq := 0; evphase := evphase s |}.
 
-(* the same flush when get_files(dir) FAILS (an entry that cannot be stat()-ed): the Err arm only logs
-   a warning and falls through to the write -- the cap is not consulted *)
+(* the same flush when get_files(dir) FAILS (an entry that cannot be stat()-ed): since /repo 7e4ec27
+   the Err arm fails closed -- the drained events are dropped, nothing is written *)
 Definition ev_flush_lf (ts : bytes) (s : evstate) : evstate :=
+  if evq s =? 0 then s else {| evdir := evdir s; evq := 0; evphase := evphase s |}.
+
+(* BEFORE 7e4ec27 (finding F-C19b, kept for the documented refutation): the Err arm only logged a
+   warning and fell through to the write -- the cap was not consulted *)
+Definition ev_flush_lf_before_fix (ts : bytes) (s : evstate) : evstate :=
   if evq s =? 0 then s
   else {| evdir := dput (ts ++ ev_ext) (evq s) 0 (evdir s); evq := 0; evphase := evphase s |}.
 
